@@ -36,6 +36,10 @@ func run(repo, dir string, seed uint64, tier, thriftgo, plug string) int {
 	if tier == "thorough" {
 		nReq, nSyn, nTree, nStr, nProc = 1500, 600, 1000, 3000, 120
 	}
+	h.regressions() // repaired defects first
+	if thriftgo != "" && plug != "" {
+		h.processRegressions()
+	}
 	h.directed()
 	h.suiteRequests(nReq)
 	h.suiteSynthetic(nSyn)
@@ -329,6 +333,59 @@ func (h *harness) suiteSynthetic(n int) {
 		}
 		h.codecCase(label, c, obj, true, true)
 	}
+}
+
+// regressions: witnesses of repaired defects, run before everything else.
+//  - malformed bytes whose type bytes are >= 0x80 made the fast codec's Skip index a table with a negative
+//    number: UnmarshalResponse/UnmarshalRequest must return an error (thriftgo then fails with a message)
+//  - (process level, see suiteProcess) garbled plugin output of that kind, and two -g with one -p
+func (h *harness) regressions() {
+	for _, bs := range malformed {
+		for _, c := range []codec{h.resCodec(), h.reqCodec()} {
+			h.out.Count("regression:malformed-bytes")
+			if bad, why := h.unmarshalPanics(c, bs); bad {
+				h.out.Fail(vl.OracleFail{
+					Key:      keyOf("unmarshal-panic", fmt.Sprintf("%d %s", c.sidx, vl.Hex(string(bs)))),
+					What:     "Unmarshal" + h.sc.Structs[c.sidx].Name + " panics on malformed bytes instead of returning an error",
+					Input:    map[string]interface{}{"kind": "bytes", "sidx": c.sidx, "hex": vl.Hex(string(bs))},
+					Expected: "an error", Observed: why})
+			}
+			h.unmCase(c, bs, true)
+		}
+	}
+	r := vl.NewRng(uint64(len(malformed)) + 77) // a fixed handful of short byte strings with high bytes
+	for i := 0; i < 40; i++ {
+		bs := make([]byte, 3+r.Intn(10))
+		for j := range bs {
+			bs[j] = byte(r.Intn(256))
+		}
+		if r.Chance(50) {
+			bs[0] = []byte{0x0f, 0x0d, 0x0e, 0x0c, 0x80, 0xff}[r.Intn(6)]
+		}
+		c := h.resCodec()
+		h.out.Count("regression:random-bytes")
+		if bad, why := h.unmarshalPanics(c, bs); bad {
+			h.out.Fail(vl.OracleFail{
+				Key:      keyOf("unmarshal-panic", fmt.Sprintf("%d %s", c.sidx, vl.Hex(string(bs)))),
+				What:     "UnmarshalResponse panics on malformed bytes instead of returning an error",
+				Input:    map[string]interface{}{"kind": "bytes", "sidx": c.sidx, "hex": vl.Hex(string(bs))},
+				Expected: "an error or a value", Observed: why})
+		}
+		h.unmCase(c, bs, true)
+	}
+}
+
+// byte strings in which a type position holds a byte >= 0x80 (field type, list element type, map key type, nested)
+var malformed = [][]byte{
+	{0x80, 0x00, 0x01, 0x00},
+	{0x0f, 0x00, 0x09, 0x80, 0x00, 0x00, 0x00, 0x01, 0x00, 0x00},
+	{0x0d, 0x00, 0x09, 0x80, 0x0b, 0x00, 0x00, 0x00, 0x01, 0x00, 0x00},
+	{0x0c, 0x00, 0x09, 0xff, 0x00, 0x01, 0x00, 0x00, 0x00},
+}
+
+func (h *harness) unmarshalPanics(c codec, bs []byte) (bool, string) {
+	p, msg := guard(func() { c.unmarshal(bs) })
+	return p, "panic: " + msg
 }
 
 // directed cases: shapes the generators reach rarely or never.
